@@ -66,7 +66,7 @@ pub fn all() -> Vec<Spec> {
             id: "C02",
             run: c02::run,
             level: "exploration",
-            rule: "a script (initial metadata, k messages, OK or Status(code 1..16, Unicode message, details, metadata), possibly failing up front, bidi read/write interleaving) drives the real generated server behind the real generated client for each of the 4 call shapes; loopback monitor: in-process transport whose request and response bodies are re-chunked (pieces of 1..max_piece bytes, merges across frames, injected Pending) - h2 monitor: real Endpoint/Server over a fragmenting in-memory pipe with tiny HTTP/2 windows on a paused clock. Oracle: reference model of the four shapes (judge_call) + handler-side log of received messages/metadata (judge_request). Fingerprint = transport|shape|k class|outcome code|up-front|#request msgs class|metadata class|piece size. Non-trivial = error outcome or >=2 messages in either direction.",
+            rule: "a script (initial metadata, k messages, OK or Status(code 1..16, Unicode message, details, metadata), possibly failing up front, bidi read/write interleaving) drives the real generated server behind the real generated client for each of the 4 call shapes; loopback monitor: in-process transport whose request and response bodies are re-chunked (pieces of 1..max_piece bytes, merges across frames, injected Pending) - h2 monitor: real Endpoint/Server over a fragmenting in-memory pipe with tiny HTTP/2 windows on a paused clock. Oracle: reference model of the four shapes (judge_call) + handler-side log of received messages/metadata (judge_request). Fingerprint = transport|shape|k class|outcome code|up-front|#request msgs class|metadata class|piece size. Non-trivial = error outcome or >=2 messages in either direction. Additions: handler streams may be scripted to continue after their error item and every body is polled on after its trailers (nothing may follow the outcome); 1 call in 12 has its response stream reset (CANCELLED body error) before any status - the client must see a prefix and must not report success; 1 in 700 carries a message just above 4 MiB with the receiver configured for 6 MiB, mostly through a clone of the configured client.",
             exhaustive: false,
             assumptions: COMMON_ASSUMPTIONS,
         },
@@ -100,7 +100,7 @@ pub fn all() -> Vec<Spec> {
             id: "C06",
             run: c06::run,
             level: "exploration",
-            rule: "declimit: streams of 1..5 frames (identity or compressed, flag 0/1) with the limit placed at target length -1/0/+1 (or from {0,1,4,5,100,4096,65536}, or the 4 MiB default with a 4 MiB-1/4 MiB/4 MiB+1 message), any chunking; oracle: exact accept/refuse by wire length, OUT_OF_RANGE, earlier messages delivered first, refusal no later than the DATA chunk that completes the 5-byte prefix, largest single allocation (counting allocator) under a bound independent of the declared length. hugeprefix: bare prefixes declaring 2^16..2^32-1 bytes. enclimit: EncodeBody (both roles, all encodings, all readiness classes) with the limit at the produced wire length -1/0/+1 learned from an unlimited run; oracle: bytes before the status equal the unlimited run's bytes of the earlier messages, then exactly one trailers (server, grpc-status 11) / one Err (client) and nothing after. enc4g (thorough): one 4 GiB+1 item => RESOURCE_EXHAUSTED. Fingerprint = side|enc|role/dir|n|position of oversized|relation to limit|cut style or readiness. Non-trivial = a message at or over the limit.",
+            rule: "declimit: streams of 1..5 frames (identity or compressed, flag 0/1) with the limit placed at target length -1/0/+1 (or from {0,1,4,5,100,4096,65536}, or the 4 MiB default with a 4 MiB-1/4 MiB/4 MiB+1 message), any chunking; oracle: exact accept/refuse by wire length, OUT_OF_RANGE, earlier messages delivered first, refusal no later than the DATA chunk that completes the 5-byte prefix, largest single allocation (counting allocator) under a bound independent of the declared length. hugeprefix: bare prefixes declaring 2^16..2^32-1 bytes. enclimit: EncodeBody (both roles, all encodings, all readiness classes) with the limit at the produced wire length -1/0/+1 learned from an unlimited run; oracle: bytes before the status equal the unlimited run's bytes of the earlier messages, then exactly one trailers (server, grpc-status 11) / one Err (client) and nothing after. enc4g (thorough): one 4 GiB+1 item => RESOURCE_EXHAUSTED. Fingerprint = side|enc|role/dir|n|position of oversized|relation to limit|cut style or readiness. Non-trivial = a message at or over the limit. Limits include values above 2^32 (nothing can exceed them); the rejection deadline is measured against a body that is Pending right after the chunk completing the prefix (reading ahead what is already there is free).",
             exhaustive: false,
             assumptions: COMMON_ASSUMPTIONS,
         },
@@ -116,7 +116,7 @@ pub fn all() -> Vec<Spec> {
             id: "C08",
             run: c08::run,
             level: "exploration",
-            rule: "wire monitor: request metadata, response initial metadata and error-status metadata (ASCII and -bin, repeated keys, byte strings of every length mod 3) with reserved names (te, user-agent, content-type, grpc-status, grpc-message, grpc-message-type) inserted at random positions carrying a USERVAL taint tag, sent through the generated client and server over the in-process transport whose 'network peer' optionally re-pads every -bin value; taps record the request head, response head and trailers. Oracle: every non-reserved entry on the wire under the same key, same ordered values, -bin values canonical unpadded base64; no header under a reserved name carries a taint tag; the handler and the client API see the original bytes whether or not the peer padded. accessors monitor: MetadataMap::from_headers over arbitrary peer headers (valid/invalid/padded base64, reserved names, repeats): iter/keys/values/get/get_bin/get_all/get_all_bin classify every key by its suffix, binary values decode to the original bytes, equality/hash agree between padded peer form and locally built values, into_headers is the inverse. Fingerprint = leg|shape|#reserved per place|peer pads|failure placement (wire) or entry/binary/reserved/repeat classes (accessors). Non-trivial = a reserved name present or a padding peer (wire); a non-empty map (accessors).",
+            rule: "wire monitor: request metadata, response initial metadata and error-status metadata (ASCII and -bin, repeated keys, byte strings of every length mod 3) with reserved names (te, user-agent, content-type, grpc-status, grpc-message, grpc-message-type) inserted at random positions carrying a USERVAL taint tag, sent through the generated client and server over the in-process transport whose 'network peer' optionally re-pads every -bin value; taps record the request head, response head and trailers. Oracle: every non-reserved entry on the wire under the same key, same ordered values, -bin values canonical unpadded base64; no header under a reserved name carries a taint tag; the handler and the client API see the original bytes whether or not the peer padded. accessors monitor: MetadataMap::from_headers over arbitrary peer headers (valid/invalid/padded base64, reserved names, repeats): iter/keys/values/get/get_bin/get_all/get_all_bin classify every key by its suffix, binary values decode to the original bytes, equality/hash agree between padded peer form and locally built values, into_headers is the inverse. Fingerprint = leg|shape|#reserved per place|peer pads|failure placement (wire) or entry/binary/reserved/repeat classes (accessors). Non-trivial = a reserved name present or a padding peer (wire); a non-empty map (accessors). The accessors monitor also builds keys from mixed-case spellings, binary values through every constructor with payloads that look like base64 text, and recovers statuses (with metadata) from depth 0..2 of another error's source chain.",
             exhaustive: false,
             assumptions: COMMON_ASSUMPTIONS,
         },
@@ -125,7 +125,7 @@ pub fn all() -> Vec<Spec> {
             id: "C09",
             run: c09::run,
             level: "exploration",
-            rule: "encode: Request::set_timeout on a boundary grid (10^k-1/10^k/10^k+1 of every unit, 99999999 of every unit and just beyond, 0, the 99999999 h maximum) plus random magnitudes; the header must match 1*8DIGIT unit, denote <= the request and lose < one unit (oracle: the harness's own parser), and the real parser (hook) must read it back. parse (hook): every unit x 1..8 digits x {all 9s, 10..0, all 0s, leading zeros, random} enumerated, plus malformed values (empty, no digits, bad unit, 9+ digits, signs, spaces, non-ASCII digits, fractions, exponents, huge) which must not be accepted. enforce: triples (caller grpc-timeout, Server::timeout, Endpoint::timeout, each optional) x handler latency at eff-2/eff+2/half/double/tie over the real Endpoint/Server on a paused clock: latency < eff => true outcome; latency > eff => CANCELLED 'Timeout expired' at virtual elapsed in [eff, eff+2 ms]; ties excluded. Fingerprint = leg|unit|digits / malformed class / which timeouts are set|relation. Non-trivial = every encode/parse case, enforcement cases with a strict before/after relation.",
+            rule: "encode: Request::set_timeout on a boundary grid (10^k-1/10^k/10^k+1 of every unit, 99999999 of every unit and just beyond, 0, the 99999999 h maximum) plus random magnitudes; the header must match 1*8DIGIT unit, denote <= the request and lose < one unit (oracle: the harness's own parser), and the real parser (hook) must read it back. parse (hook): every unit x 1..8 digits x {all 9s, 10..0, all 0s, leading zeros, random} enumerated, plus malformed values (empty, no digits, bad unit, 9+ digits, signs, spaces, non-ASCII digits, fractions, exponents, huge) which must not be accepted. enforce: triples (caller grpc-timeout, Server::timeout, Endpoint::timeout, each optional) x handler latency at eff-2/eff+2/half/double/tie over the real Endpoint/Server on a paused clock: latency < eff => true outcome; latency > eff => CANCELLED 'Timeout expired' at virtual elapsed in [eff, eff+2 ms]; ties excluded. Fingerprint = leg|unit|digits / malformed class / which timeouts are set|relation. Non-trivial = every encode/parse case, enforcement cases with a strict before/after relation. One enforce case in ten sets one of the three timeouts to zero (elapsed at once).",
             exhaustive: false,
             assumptions: COMMON_ASSUMPTIONS,
         },
@@ -134,7 +134,7 @@ pub fn all() -> Vec<Spec> {
             id: "C10",
             run: c10::run,
             level: "exploration",
-            rule: "12 services generated by the real tonic-build with names that collide by prefix/suffix/case/package (a.S, a.Sx, a.s, S, a.b.S, aa.S, a.SS, a, a.S.M, b.S, aS, A.S; methods M, Mx, m, MM, N, S); a random subset (0..6) is registered in two random orders through three construction paths (Routes::default().add_service, RoutesBuilder, Routes::new) with a random subset behind InterceptedService; 8 request paths per configuration from 20 classes (exact, extended/truncated names, case flip, trailing/empty/middle/extra segments, percent-encoded letter, query, cross-service method, odd fixed paths, look-alikes). Oracle: string equality of uri.path() with '/S/M' of a registered service decides exactly which handler runs once (reply tag checked); otherwise no handler and HTTP 200 + grpc-status 12; both orders must agree. Fingerprint = path class|#registered|construction styles|hit|path length class. Non-trivial = a non-exact path, or an exact path that hit.",
+            rule: "12 services generated by the real tonic-build with names that collide by prefix/suffix/case/package (a.S, a.Sx, a.s, S, a.b.S, aa.S, a.SS, a, a.S.M, b.S, aS, A.S; methods M, Mx, m, MM, N, S); a random subset (0..6) is registered in two random orders through three construction paths (Routes::default().add_service, RoutesBuilder, Routes::new) with a random subset behind InterceptedService; 8 request paths per configuration from 20 classes (exact, extended/truncated names, case flip, trailing/empty/middle/extra segments, percent-encoded letter, query, cross-service method, odd fixed paths, look-alikes). Oracle: string equality of uri.path() with '/S/M' of a registered service decides exactly which handler runs once (reply tag checked); otherwise no handler and HTTP 200 + grpc-status 12; both orders must agree. Fingerprint = path class|#registered|construction styles|hit|path length class. Non-trivial = a non-exact path, or an exact path that hit. Requests carry content-type application/grpc, +proto or +json (routing is by path alone).",
             exhaustive: false,
             assumptions: COMMON_ASSUMPTIONS,
         },
@@ -143,7 +143,7 @@ pub fn all() -> Vec<Spec> {
             id: "C11",
             run: c11::run,
             level: "exploration",
-            rule: "tokens monitor: random FileDescriptorSets (package absent / single / nested; service names CamelCase, acronym, snake_case, with digits; method names CamelCase, snake_case, Rust keywords; 1..6 methods over the 4 streaming kinds; options emit_package, default stubs, arc self, client/server only) are run through the real tonic_build::configure().compile_fds; the output is parsed with syn and, per method, the client's PathAndQuery literal, GrpcMethod pair, Grpc::<shape> call, request/response types and request/response streaming kinds, the server's match-arm literal, grpc.<shape> call, *Service<Req> impl, Response type and dispatched trait method, SERVICE_NAME / NamedService::NAME are extracted and compared with expectations the harness derives from the descriptor ('/' [package '.'] Service '/' Method). regeneration leg (legs/C11.quick.sh): /repo is copied to a scratch directory, the real `codegen` binary is run there and every generated file of tonic-health, tonic-reflection and tonic-types is byte-compared with the committed one. Fingerprint = package class|emit_package|stubs|arc|client/server|#services|#methods. Non-trivial = every descriptor set.",
+            rule: "tokens monitor: random FileDescriptorSets (package absent / single / nested; service names CamelCase, acronym, snake_case, with digits; method names CamelCase, snake_case, Rust keywords; 1..6 methods over the 4 streaming kinds; options emit_package, default stubs, arc self, client/server only) are run through the real tonic_build::configure().compile_fds; the output is parsed with syn and, per method, the client's PathAndQuery literal, GrpcMethod pair, Grpc::<shape> call, request/response types and request/response streaming kinds, the server's match-arm literal, grpc.<shape> call, *Service<Req> impl, Response type and dispatched trait method, SERVICE_NAME / NamedService::NAME are extracted and compared with expectations the harness derives from the descriptor ('/' [package '.'] Service '/' Method). regeneration leg (legs/C11.quick.sh): /repo is copied to a scratch directory, the real `codegen` binary is run there and every generated file of tonic-health, tonic-reflection and tonic-types is byte-compared with the committed one. Fingerprint = package class|emit_package|stubs|arc|client/server|#services|#methods. Non-trivial = every descriptor set. The token monitor applies its detailed structural checks only where it recognises the generated dispatch (one match arm per full path) and checks string literals otherwise; documentation options (disable_comments for services and single rpcs) are part of the option space. compiled-and-run leg (c11gen, legs/C11.quick.sh): the generator output for a fixed family of 18 descriptor sets is compiled together with trait implementations and drivers derived from its public surface only, and every client method is called against its service's server under a tap (path sent, GrpcMethod, handler reached, message counts, signature shapes and types, NamedService::NAME).",
             exhaustive: false,
             assumptions: COMMON_ASSUMPTIONS,
         },
@@ -160,7 +160,7 @@ pub fn all() -> Vec<Spec> {
             id: "C13",
             run: c13::run,
             level: "fault_enumeration",
-            rule: "scenario = 1..3 connections (fragmenting in-memory pipes, tiny or default HTTP/2 windows) x 1..6 scripted calls (unary / client-stream / server-stream / bidi with virtual start times, handler latencies, inter-message gaps) x a shutdown signal placed on a phase boundary of some call (-1/0/+1 ms) or fired in the very accept-loop iteration that takes the k-th connection x optional post-signal call on an old or a fresh connection x clients dropping or keeping their channels; real Server::serve_with_incoming_shutdown and real Endpoint/Channel on a paused clock. An event log (conn_offered/taken/closed, handler_enter/headers/msg/exit, call_start/end, signal_fired, serve_resolved) is checked offline: every call whose handler was entered before signal_fired ends with exactly its scripted outcome; every call ends; no conn_taken after signal_fired; serve_resolved comes after conn_closed of every taken connection and within 3600 virtual seconds of the last call's end. Fingerprint = multiset of call phases at the signal|#connections|clients kept|signal kind. Non-trivial = at least one accepted call still in flight at the signal.",
+            rule: "scenario = 1..3 connections (fragmenting in-memory pipes, tiny or default HTTP/2 windows) x 1..6 scripted calls (unary / client-stream / server-stream / bidi with virtual start times, handler latencies, inter-message gaps) x a shutdown signal placed on a phase boundary of some call (-1/0/+1 ms) or fired in the very accept-loop iteration that takes the k-th connection x optional post-signal call on an old or a fresh connection x clients dropping or keeping their channels; real Server::serve_with_incoming_shutdown and real Endpoint/Channel on a paused clock. An event log (conn_offered/taken/closed, handler_enter/headers/msg/exit, call_start/end, signal_fired, serve_resolved) is checked offline: every call whose handler was entered before signal_fired ends with exactly its scripted outcome; every call ends; no conn_taken after signal_fired; serve_resolved comes after conn_closed of every taken connection and within 3600 virtual seconds of the last call's end. Fingerprint = multiset of call phases at the signal|#connections|clients kept|signal kind. Non-trivial = at least one accepted call still in flight at the signal. A third of the default-window scenarios configure Server::max_connection_age (3..60 ms).",
             exhaustive: false,
             assumptions: COMMON_ASSUMPTIONS,
         },
@@ -178,7 +178,7 @@ pub fn all() -> Vec<Spec> {
             id: "C15",
             run: c15::run,
             level: "fault_enumeration",
-            rule: "the full configuration matrix is enumerated on every run: client roots {right CA, other CA, none} x domain {configured matching, configured non-matching, from URI matching, from URI non-matching} x server ALPN {h2 (tonic's own Server::tls_config), none, http/1.1 (harness rustls acceptor feeding tonic's serve_with_incoming)} x assume_http2 x server client-auth {none, required, optional} x client identity {none, valid, issued by another CA} x (tonic server only) ignore_client_order = 864 real rustls handshakes over the in-memory pipe (thorough: x12 with fragmenting pipes), plus https-URI-without-TLS-config cases. Oracle = decision table from the property text (success iff chain AND name AND (h2 negotiated OR assume_http2) AND client-auth rule); on expected failure the handler counter stays 0; the client's first bytes are a TLS handshake record and the plaintext preface never appears; Request::peer_certs() is Some(1) exactly when a client chain was verified. Fingerprint = the matrix cell + repetition. Non-trivial = every cell.",
+            rule: "the full configuration matrix is enumerated on every run: client roots {right CA, other CA, none} x domain {configured matching, configured non-matching, from URI matching, from URI non-matching} x server ALPN {h2 (tonic's own Server::tls_config), none, http/1.1 (harness rustls acceptor feeding tonic's serve_with_incoming)} x assume_http2 x server client-auth {none, required, optional} x client identity {none, valid, issued by another CA} x (tonic server only) ignore_client_order = 864 real rustls handshakes over the in-memory pipe (thorough: x12 with fragmenting pipes), plus https-URI-without-TLS-config cases. Oracle = decision table from the property text (success iff chain AND name AND (h2 negotiated OR assume_http2) AND client-auth rule); on expected failure the handler counter stays 0; the client's first bytes are a TLS handshake record and the plaintext preface never appears; Request::peer_certs() is Some(1) exactly when a client chain was verified. Fingerprint = the matrix cell + repetition. Non-trivial = every cell. Repetitions after the first vary what must not matter: fragmenting pipes, the order of the builder calls on ServerTlsConfig and ClientTlsConfig, eager or lazy connect, and which non-matching name is configured (including strings that are not DNS names).",
             exhaustive: true,
             assumptions: COMMON_ASSUMPTIONS,
         },
@@ -186,7 +186,7 @@ pub fn all() -> Vec<Spec> {
             id: "C16",
             run: c16::run,
             level: "exploration",
-            rule: "response monitor: the inner gRPC service answers with 0..4 message frames (0..3000 bytes, flag 0/1) re-cut by 7 cut styles (frames split across and merged into body chunks, empty chunks, Pending) and generated trailers (':' and spaces in values, repeated names); the request's Accept picks binary or base64 text; an independent grpc-web decoder (own base64, own frame parser, own HTTP/1 block parser) must recover the identical message bytes, then exactly one 0x80 frame listing every trailer, nothing after, and the content-type that matches Accept. request monitor: gRPC bytes encoded by the harness as binary or as one base64 run (padded or not), cut at arbitrary positions incl. every position mod 4, must reach the inner service as the original bytes with content-type application/grpc and te: trailers, head otherwise intact. matrix monitor: all 7 methods x 3 versions x 10 content-types: 405 / 400 / served / untouched pass-through (exhaustive, 210 cases). Fingerprint = leg|text/binary|#frames|#trailers|cut style|accept (or the matrix cell). Non-trivial = at least one frame and one cut; every matrix cell.",
+            rule: "response monitor: the inner gRPC service answers with 0..4 message frames (0..3000 bytes, flag 0/1) re-cut by 7 cut styles (frames split across and merged into body chunks, empty chunks, Pending) and generated trailers (':' and spaces in values, repeated names); the request's Accept picks binary or base64 text; an independent grpc-web decoder (own base64, own frame parser, own HTTP/1 block parser) must recover the identical message bytes, then exactly one 0x80 frame listing every trailer, nothing after, and the content-type that matches Accept. request monitor: gRPC bytes encoded by the harness as binary or as one base64 run (padded or not), cut at arbitrary positions incl. every position mod 4, must reach the inner service as the original bytes with content-type application/grpc and te: trailers, head otherwise intact. matrix monitor: all 7 methods x 3 versions x 10 content-types: 405 / 400 / served / untouched pass-through (exhaustive, 210 cases). Fingerprint = leg|text/binary|#frames|#trailers|cut style|accept (or the matrix cell). Non-trivial = at least one frame and one cut; every matrix cell. Requests carry gRPC's own headers (grpc-accept-encoding, grpc-encoding, grpc-timeout; present or absent) and custom metadata, which the inner service must see unchanged.",
             exhaustive: false,
             assumptions: COMMON_ASSUMPTIONS,
         },
@@ -203,7 +203,7 @@ pub fn all() -> Vec<Spec> {
             id: "C18",
             run: c18::run,
             level: "exploration",
-            rule: "sequential monitor: random histories (3..30 ops) over {set, clear, check, watch, next(watcher)} on services {'', 'a', 'b'} through the generated HealthClient over the in-process transport; watchers are polled the way an executor would (only when never polled or woken since their last Pending), then run to quiescence once updates stop. Oracle = sequential model: check = latest set / NOT_FOUND ('' SERVING by default); watch of an unregistered name NOT_FOUND; every reported status is a subsequence of the statuses that registration held since subscription; at quiescence the last report equals the registration's latest status; a cleared registration ends its streams after the unreported final status; a registered one never ends. concurrent monitor: multi-thread runtime, 2-3 writers (set/clear), 2-3 checkers, 1-3 watchers, operations timestamped at the client boundary; per-service Wing-Gong linearizability search against a register model (2 s timeout => inconclusive) plus watch constraints (only set values, last = final status). Fingerprint = leg|history size class|#watchers|#clears (sequential) or task counts (concurrent). Non-trivial = history with at least one watcher.",
+            rule: "sequential monitor: random histories (3..30 ops) over {set, clear, check, watch, next(watcher)} on services {'', 'a', 'b'} through the generated HealthClient over the in-process transport; watchers are polled the way an executor would (only when never polled or woken since their last Pending), then run to quiescence once updates stop. Oracle = sequential model: check = latest set / NOT_FOUND ('' SERVING by default); watch of an unregistered name NOT_FOUND; every reported status is a subsequence of the statuses that registration held since subscription; at quiescence the last report equals the registration's latest status; a cleared registration ends its streams after the unreported final status; a registered one never ends. concurrent monitor: multi-thread runtime, 2-3 writers (set/clear), 2-3 checkers, 1-3 watchers, operations timestamped at the client boundary; per-service Wing-Gong linearizability search against a register model (2 s timeout => inconclusive) plus watch constraints (only set values, last = final status). Fingerprint = leg|history size class|#watchers|#clears (sequential) or task counts (concurrent). Non-trivial = history with at least one watcher. race / race2 monitors: forced interleavings on a current-thread runtime with a paused clock - one writer first burns k units of tokio's cooperative budget so that a lock acquisition inside the reporter yields; two first-time registrations with a watcher subscribing in between (race), or a set/clear pair on a registered, watched service judged against both sequential orders (race2).",
             exhaustive: false,
             assumptions: COMMON_ASSUMPTIONS,
         },
